@@ -132,8 +132,8 @@ func ruleSetOrd(c *Ctx) {
 		c.R.Check(ok, "fun."+h.fn, "result follows the first operand's order", fd.Pos(), "ranges over x.link (then y.link for union); operands not reassigned", "the result is not built in the first operand's insertion order (operands swapped/reassigned or another iteration order): "+h.fn+"([3,2,1],[1,2]) changes element order")
 	}
 	if fd := c.FuncDecl("fun", "valSetOf"); fd != nil {
-		s := sx(fd.Body)
-		ok := strings.Contains(s, "(RangeStmt Key:_ Value:v Tok::= xs Body:") && strings.Contains(s, "(IfStmt Init:(AssignStmt Lhs:[_ ok] Tok::= Rhs:[(IndexExpr m Index:hash)]) Cond:(UnaryExpr Op:! ok)") && strings.Contains(s, "Rhs:[(CallExpr Fun:append Args:[l hash])]")
+		// range over the list; key := v.String(); if _, seen := m[key]; !seen { m[key] = v; l = append(l, key) }
+		ok := c.hasNode(fd, fd.Body, "(RangeStmt Key:_ Value:$0 Tok::= $p0 Body:(BlockStmt [(AssignStmt Lhs:[$1] Tok::= Rhs:[(CallExpr Fun:(SelectorExpr $0 Sel:String))]) (IfStmt Init:(AssignStmt Lhs:[_ $2] Tok::= Rhs:[(IndexExpr $3 Index:$1)]) Cond:(UnaryExpr Op:! $2) Body:(BlockStmt [(AssignStmt Lhs:[(IndexExpr $3 Index:$1)] Tok:= Rhs:[$0]) (AssignStmt Lhs:[$4] Tok:= Rhs:[(CallExpr Fun:append Args:[$4 $1])])]))]))", false)
 		c.R.Check(ok, "fun.valSetOf", "keys recorded at first occurrence, in list order", fd.Pos(), "range xs; if !seen { m[hash] = v; l = append(l, hash) }", "valSetOf no longer records each distinct element once, in list order")
 		byString := len(c.callsTo(fd.Body, "val.Val.String")) == 1
 		c.R.Check(byString, "fun.valSetOf", "elements keyed by their canonical rendering", fd.Pos(), "hash := v.String(): membership agrees with rendering (C18)", "set membership is not keyed by Val.String")
@@ -405,8 +405,8 @@ func ruleTotal1(c *Ctx) {
 	}
 	if fd := c.FuncDecl("val", "MaybeVal.GetOrDefault"); fd != nil {
 		// MAYBE-1: nil payload -> default, otherwise payload
-		s := sx(fd.Body.List)
-		ok := strings.HasPrefix(s, "[(IfStmt Cond:(BinaryExpr (SelectorExpr v Sel:V) Op:== Y:nil)") && strings.Contains(s, "(ReturnStmt Results:[defVal])") && strings.Contains(s, "Else:(BlockStmt [(ReturnStmt Results:[(SelectorExpr v Sel:V)])])")
+		s := c.sxN(fd, fd.Body.List)
+		ok := strings.HasPrefix(s, "[(IfStmt Cond:(BinaryExpr (SelectorExpr $r Sel:V) Op:== Y:nil)") && strings.Contains(s, "(ReturnStmt Results:[$p0])") && strings.Contains(s, "Else:(BlockStmt [(ReturnStmt Results:[(SelectorExpr $r Sel:V)])])")
 		c.R.Check(ok, "val.MaybeVal.GetOrDefault", "MAYBE-1 absent -> default, present -> payload", fd.Pos(), "the sole eliminator of optionals is total", "GetOrDefault is not `if v.V == nil { return default } else { return v.V }`")
 	} else {
 		c.R.Anchor("val.MaybeVal.GetOrDefault")
